@@ -220,18 +220,10 @@ def rule_hof_copy(ctx: Ctx) -> None:
     em = repo.module(EVO)
     fn = repo.anchor(EVO, "EvolutionarySolver.population_initialization")
     ctx.touch(em, fn)
-    for c in [c for c in calls_in(fn) if call_attr(c) == "append" and "population" in norm(c.func.value)]:
-        t = c.args[0]
-        if isinstance(t, ast.Tuple) and len(t.elts) == 2:
-            e = t.elts[1]
-            if "self.circuit" in norm(e):
-                if _is_copy(e):
-                    ctx.ok("effect.hof-copy", em, c, what="user circuit copied per population member")
-                else:
-                    ctx.fail("effect.hof-copy", em, c, f"`{short(c)}` places the user's own circuit in the population; the solver would "
-                                                       f"mutate it", func="EvolutionarySolver.population_initialization")
-            else:
-                ctx.ok("effect.hof-copy", em, c, what="fresh circuit")
+    _population_members_fresh(ctx, em, fn, "EvolutionarySolver.population_initialization")
+    hm0 = repo.module(HYB)
+    _population_members_fresh(ctx, hm0, repo.anchor(HYB, "HybridEvolutionarySolver.population_initialization"),
+                              "HybridEvolutionarySolver.population_initialization")
     hm = repo.module(HYB)
     fn = repo.anchor(HYB, "HybridEvolutionarySolver.randomize_circuit")
     ctx.touch(hm, fn)
@@ -243,6 +235,38 @@ def rule_hof_copy(ctx: Ctx) -> None:
     else:
         ctx.fail("effect.hof-copy", hm, fn, "randomize_circuit applies transformations to its input circuit (shared by the whole population)",
                  func="HybridEvolutionarySolver.randomize_circuit", construct="randomize_circuit: mutates input")
+
+
+def _population_members_fresh(ctx: Ctx, m: Module, fn: ast.FunctionDef, q: str) -> None:
+    """Every (score, circuit) appended to a population inside a loop carries a circuit object created *in that iteration*
+    (a copy / constructor / factory call evaluated per member): members are mutated in place independently."""
+    found = 0
+    for c in [c for c in calls_in(fn) if call_attr(c) == "append" and "population" in norm(c.func.value)]:
+        t = c.args[0]
+        if not (isinstance(t, ast.Tuple) and len(t.elts) == 2):
+            continue
+        found += 1
+        e = t.elts[1]
+        loop = next((a for a in _anc(c) if isinstance(a, (ast.For, ast.While))), None)
+        if loop is None:
+            ctx.fail("effect.hof-copy", m, c, f"`{short(c)}` is not inside the per-member loop", func=q)
+            continue
+        src = e
+        if isinstance(e, ast.Name):
+            inner = [n for n in ast.walk(loop) if isinstance(n, ast.Assign) and any(norm(x) == e.id for x in n.targets)]
+            src = inner[-1].value if inner else None
+        per_member = isinstance(src, ast.Call)
+        user = src is not None and "self.circuit" in norm(src) and not _is_copy(src)
+        if per_member and not user:
+            ctx.ok("effect.hof-copy", m, c, what=f"{q}: member circuit created per iteration ({short(src, 50)})")
+        else:
+            ctx.fail("effect.hof-copy", m, c,
+                     f"{q} appends `{norm(e)}` to the population, which is " + ("the user's own circuit" if user else
+                     "one object bound outside the per-member loop") + ": all members (or the caller) share one circuit object that the "
+                     f"generation loop mutates in place, so stored scores no longer match stored circuits", func=q,
+                     construct=f"{q}: population member {norm(e)} not created per iteration")
+    if found == 0:
+        raise AnalysisError(f"{q}: no population append found")
 
 
 # --------------------------------------------------------------------------- D4 effect.result-provenance
